@@ -79,6 +79,25 @@ class NDJsonProtocolWriter(ABC):
         self._stream.write("\n")
 
 
+def _json_equal(a: Any, b: Any) -> bool:
+    """Equality of two parsed JSON documents. Unlike ==, true / false are not the numbers 1 / 0."""
+    if isinstance(a, bool) or isinstance(b, bool):
+        return isinstance(a, bool) and isinstance(b, bool) and a == b
+    if isinstance(a, dict) and isinstance(b, dict):
+        a_dict, b_dict = cast(dict[str, Any], a), cast(dict[str, Any], b)
+        return a_dict.keys() == b_dict.keys() and all(
+            _json_equal(v, b_dict[k]) for k, v in a_dict.items()
+        )
+    if isinstance(a, list) and isinstance(b, list):
+        a_list, b_list = cast(list[Any], a), cast(list[Any], b)
+        return len(a_list) == len(b_list) and all(
+            _json_equal(x, y) for x, y in zip(a_list, b_list)
+        )
+    if isinstance(a, (int, float)) and isinstance(b, (int, float)):
+        return a == b
+    return type(a) is type(b) and a == b
+
+
 class NDJsonProtocolReader:
     def __init__(
         self, stream: Union[io.BufferedReader, TextIO, str], schema: str
@@ -111,15 +130,16 @@ class NDJsonProtocolReader:
                 "Data in the stream is not in the expected Yardl NDJSON format."
             )
 
-        if (
-            header_json.get("version")  # pyright: ignore [reportUnknownMemberType]
-            != CURRENT_NDJSON_FORMAT_VERSION
-        ):
+        version = header_json.get(  # pyright: ignore [reportUnknownMemberType]
+            "version"
+        )
+        if isinstance(version, bool) or version != CURRENT_NDJSON_FORMAT_VERSION:
             raise ValueError("Unsupported yardl version.")
 
-        if header_json.get(  # pyright: ignore [reportUnknownMemberType]
-            "schema"
-        ) != json.loads(schema):
+        if not _json_equal(
+            header_json.get("schema"),  # pyright: ignore [reportUnknownMemberType]
+            json.loads(schema),
+        ):
             raise ValueError(
                 "The schema of the data to be read is not compatible with the current protocol."
             )
